@@ -504,9 +504,6 @@ func genHistory(c *h.Ctx) {
 				v = "-"
 			}
 			w, e, cc := tri(), tri(), tri()
-			if v == "-" && w == "-" {
-				w = "0" // generic descriptors belong to C07
-			}
 			st = "def/" + kTok(key) + "/" + v + "/" + w + "/" + e + "/" + cc
 			keys = append(keys, "step:def")
 		case k == 8:
